@@ -1191,8 +1191,13 @@ tp_shutdown_wait(tp_p tp) {
 	/* Threads that could not be joined and the attached first thread:
 	 * wait until they have marked themself as stopped. */
 	(void)err_cnt;
-	while (0 != tp_thread_count_get(tp)) {
-		nanosleep(&rqts, NULL); /* Ignore early wakeup and errors. */
+	for (size_t i = 0; i < tp->s.threads_max; i ++) {
+		/* STOP is the last thing a thread stores: after it the thread
+		 * does not touch the pool any more (stop hook included). */
+		while (TP_THREAD_STATE_STOP !=
+		    __atomic_load_n(&tp->threads[i].state, __ATOMIC_ACQUIRE)) {
+			nanosleep(&rqts, NULL); /* Ignore early wakeup and errors. */
+		}
 	}
 
 	return (0);
@@ -1386,7 +1391,8 @@ tp_thread_proc(void *data) {
 	tpt->tp->threads_cnt --;
 	/* pt_id is kept for tp_shutdown_wait(): it joins and resets it.
 	 * Nothing may touch tpt / tp after the state store below. */
-	tpt->state = TP_THREAD_STATE_STOP; /* Reset state on exit. */
+	__atomic_store_n(&tpt->state, TP_THREAD_STATE_STOP,
+	    __ATOMIC_RELEASE); /* Reset state on exit. */
 	LCB_VERIF_POINT(LCB_VP_THREAD_PROC_AFTER_STOP_STORE);
 
 	return (NULL);
